@@ -1,16 +1,29 @@
 #!/venv/bin/python
-"""Self-test of the handler-body translator (tools/extract_handlers.py) and of G3D/Proofs/HandlersTie.lean:
-small mutations of the handler bodies on a COPY of the library must either make the translator exit non-zero or
-change the generated term so that the equivalence theorems no longer build; two semantics-preserving edits must
-leave the build green.  usage: selftest_handlers.py   (writes only to /tmp/vh_repo and lean/G3D/Extracted/Handlers.lean,
-which is regenerated from ${G3D_SRC:-/repo} at the end)"""
-import subprocess, shutil, os, sys, re
+"""Self-test of the handler-body translator (tools/hextract.py via extract_h{flat,polygon,polyhedron,body}.py) and of
+G3D/Proofs/HandlersTie{Flat,Polygon,Polyhedron,Body}.lean: small mutations of the handler bodies on a COPY of the library.
+For every mutation the table says which generated files change, the exit status of the extractors, and which tie modules
+(and which theorems in them) stop building.  A behaviour-changing mutation must break exactly the tie module(s) of the
+group of the mutated function; two semantics-preserving edits must leave everything green.
+usage: selftest_handlers.py   (writes only to /tmp/vh_repo and lean/G3D/Extracted/H*.lean, which are regenerated from
+the working tree of ${G3D_SRC:-/repo} at the end)"""
+import subprocess, shutil, os, sys, re, json
 VERIF = os.path.dirname(os.path.dirname(os.path.abspath(__file__)))
 REPO = os.environ.get('G3D_SRC', '/repo')
-SRC=os.path.join(REPO, 'Geometry3D'); DST='/tmp/vh_repo/Geometry3D'
-os.makedirs('/tmp/vh_repo', exist_ok=True)
-if not os.path.isdir(DST): shutil.copytree(SRC, DST)
+# the base of all mutations is a SNAPSHOT (the committed tree of the library when it is a git checkout, else a copy of
+# the working tree taken now): other processes may be editing the working tree while this runs
+BASE='/tmp/vh_repo/base'; SRC=os.path.join(BASE, 'Geometry3D'); DST='/tmp/vh_repo/Geometry3D'
+shutil.rmtree('/tmp/vh_repo', ignore_errors=True); os.makedirs(BASE)
+_ar = subprocess.run('git -C %s archive HEAD Geometry3D | tar -x -C %s' % (REPO, BASE), shell=True, capture_output=True)
+if _ar.returncode != 0 or not os.path.isdir(SRC):
+    shutil.rmtree(SRC, ignore_errors=True); shutil.copytree(os.path.join(REPO, 'Geometry3D'), SRC)
+shutil.copytree(SRC, DST)
 I='calc/intersection.py'; A='calc/aux_calc.py'
+GROUPS=['hflat','hpolygon','hpolyhedron','hbody']
+MODULE={'hflat':'HandlersTieFlat','hpolygon':'HandlersTiePolygon','hpolyhedron':'HandlersTiePolyhedron','hbody':'HandlersTieBody'}
+# expected broken tie modules per mutation id (None = extractor marker / build failure in that group)
+EXPECT={'M0':[], 'M1':['hpolyhedron'],'M2':['hpolyhedron'],'M3':['hbody'],'M4':['hpolyhedron'],'M5':['hpolyhedron'],'M6':['hpolyhedron'],
+ 'M7':['hpolyhedron'],'M8':['hpolyhedron'],'M9':['hbody'],'M10':['hbody'],'M11':['hpolyhedron'],'M12':['hpolyhedron'],'M13':['hpolyhedron'],
+ 'M14':['hflat'],'M15':['hpolygon'],'M16':['hpolygon'],'M17':[],'M18':[],'M19':['hbody'],'M20':['hbody'],'M21':['hflat']}
 MUTS=[
  ('M0 control: no change', I, None, None),
  ('M1 remove `elif isinstance(inter_cpg_l, Point)` branch (inter_line_convexpolyhedron)', I,
@@ -47,14 +60,35 @@ MUTS=[
   "    try:\n        inter_l_p = intersection(a.line, b.plane)\n    except Exception:\n        inter_l_p = None\n    if inter_l_p is None:\n        return None\n    elif isinstance(inter_l_p, Point):\n        if (not inter_l_p in a)"),
  ('M16 unknown helper call math.isclose(...) (inter_point_convexpolygon)', I,
   "    if p in cpg:\n        return p", "    if p in cpg and math.isclose(p.x, p.x):\n        return p"),
+ ('M19 isolation: `while` loop in the directly-called handler inter_convexpolygon_convexPolyhedron', I,
+  "    inter_p_cph = intersection(cph, cpg.plane)\n    if inter_p_cph is None:", "    inter_p_cph = intersection(cph, cpg.plane)\n    while False:\n        pass\n    if inter_p_cph is None:"),
+ ('M20 isolation: helper points_in_a_line missing (renamed)', A, "def points_in_a_line(points):", "def points_in_a_line_renamed(points):"),
+ ('M21 isolation: tuple-unpacking assignment in inter_segment_segment', I,
+  "    if a.line == b.line:\n        point_set = set()\n        if a.start_point in b:\n            point_set.add(a.start_point)\n        if a.end_point in b:\n            point_set.add(a.end_point)\n        if b.start_point in a:",
+  "    if a.line == b.line:\n        point_set, dummy = set(), 0\n        if a.start_point in b:\n            point_set.add(a.start_point)\n        if a.end_point in b:\n            point_set.add(a.end_point)\n        if b.start_point in a:"),
  ('M17 semantics-preserving: rename local set_point -> pts (inter_line_convexpolyhedron)', I, 'RENAME', None),
  ('M18 semantics-preserving: swap args of generic intersection(l, cpg) -> intersection(cpg, l) (inter_line_convexpolyhedron)', I,
   "inter_cpg_l = intersection(l, cpg)", "inter_cpg_l = intersection(cpg, l)"),
 ]
 def run(cmd, **kw):
     return subprocess.run(cmd, capture_output=True, text=True, **kw)
-rows=[]
+def gen_path(g): return os.path.join(VERIF,'lean','G3D','Extracted',g.capitalize()+'.lean')
+def extract(repo):
+    out={}
+    for g in GROUPS:
+        ex=run(['/venv/bin/python','-B',os.path.join(VERIF,'tools','extract_%s.py'%g),repo])
+        out[g]=ex
+    return out
+def thm_of(module, ln):
+    src=open(os.path.join(VERIF,'lean','G3D','Proofs',module+'.lean')).read().split('\n')
+    for i in range(int(ln)-1,-1,-1):
+        m=re.match(r'(?:@\[[^\]]*\] )?(?:theorem|def) (\S+)',src[i])
+        if m: return m.group(1)
+    return '?'
+ORIG={g: ex.stdout for g, ex in extract(BASE).items()}
+rows=[]; bad=[]
 for name, f, old, new in MUTS:
+    mid=name.split()[0]
     shutil.rmtree(DST); shutil.copytree(SRC, DST)
     if old is not None:
         p=os.path.join(DST,f); s=open(p).read()
@@ -66,37 +100,34 @@ for name, f, old, new in MUTS:
             s2=s.replace(old,new,1)
         assert s2!=s, name
         open(p,'w').write(s2)
-        # the mutated library must still be importable Python
         r=run(['/venv/bin/python','-c','import ast,sys;ast.parse(open(sys.argv[1]).read())',p]); assert r.returncode==0,(name,r.stderr)
-    ex=run(['/venv/bin/python','-B',os.path.join(VERIF,'tools','extract_handlers.py'),'/tmp/vh_repo'])
-    if ex.returncode!=0:
-        rows.append((name,'extractor exit %d'%ex.returncode, ex.stderr.strip().split('\n')[-1])); print(rows[-1],flush=True); continue
-    cur=open(os.path.join(VERIF,'lean','G3D','Extracted','Handlers.lean')).read()
-    changed = ex.stdout!=ORIG if 'ORIG' in globals() else None
-    if old is None: ORIG=ex.stdout
-    open(os.path.join(VERIF,'lean','G3D','Extracted','Handlers.lean'),'w').write(ex.stdout)
-    b=run(['lake','build','G3D.Proofs.HandlersTie'],cwd=os.path.join(VERIF,'lean'))
-    errs=re.findall(r'^error: (G3D/\S+?\.lean):(\d+):\d+: (.*)$', b.stdout+b.stderr, re.M)
-    if b.returncode==0:
-        rows.append((name,'term %s; tie theorems BUILD'%('changed' if ex.stdout!=ORIG else 'unchanged'),''))
-    else:
-        # which theorem fails: map line numbers to theorem names
-        src=open(os.path.join(VERIF,'lean','G3D','Proofs','HandlersTie.lean')).read().split('\n')
-        def thm(fn,ln):
-            if not fn.endswith('HandlersTie.lean'): return fn
-            for i in range(int(ln)-1,-1,-1):
-                m=re.match(r'theorem (\S+)',src[i])
-                if m: return m.group(1)
-            return '?'
-        failed=sorted({thm(fn,ln) for fn,ln,_ in errs})
-        rows.append((name,'term changed; build FAILS', ', '.join(failed) if failed else (b.stdout+b.stderr)[-300:]))
-    print(rows[-1],flush=True)
+    exs=extract('/tmp/vh_repo')
+    changed=[]; exits={}; msgs=[]
+    for g in GROUPS:
+        exits[g]=exs[g].returncode
+        if exs[g].stderr.strip(): msgs.append(exs[g].stderr.strip().split('\n')[-1])
+        text = exs[g].stdout if exs[g].returncode==0 else '-- extraction failed\n#exit_extraction_failed\n'
+        if text!=ORIG[g]: changed.append(g.capitalize()+'.lean')
+        open(gen_path(g),'w').write(text)
+    broken=[]; failed_thms=[]
+    for g in GROUPS:
+        b=run(['lake','build','G3D.Proofs.'+MODULE[g]],cwd=os.path.join(VERIF,'lean'))
+        if b.returncode!=0:
+            broken.append(g)
+            errs=re.findall(r'^error: G3D/Proofs/(\w+)\.lean:(\d+):\d+:', b.stdout+b.stderr, re.M)
+            failed_thms += sorted({thm_of(m,ln) for m,ln in errs if m==MODULE[g]}) or ['(import of generated file fails)']
+    row=dict(mutation=name, extractor_exit=exits, stderr=msgs, changed_files=changed,
+             broken_modules=[MODULE[g] for g in broken], failing_theorems=failed_thms)
+    rows.append(row); print(json.dumps(row),flush=True)
+    if broken!=EXPECT[mid]: bad.append((mid,broken,EXPECT[mid]))
+    exp_changed={GROUP.capitalize()+'.lean' for GROUP in EXPECT[mid]}
+    if EXPECT[mid] and set(changed)!=exp_changed: bad.append((mid,'changed',changed))
 # restore
-ex=run(['/venv/bin/python','-B',os.path.join(VERIF,'tools','extract_handlers.py'),REPO])
-open(os.path.join(VERIF,'lean','G3D','Extracted','Handlers.lean'),'w').write(ex.stdout)
+exs=extract(REPO)
+for g in GROUPS: open(gen_path(g),'w').write(exs[g].stdout)
 b=run(['lake','build','G3D.Proofs.HandlersTie'],cwd=os.path.join(VERIF,'lean'))
-print('restored, build rc', b.returncode)
+print('regenerated from', REPO, '- build rc', b.returncode)
 shutil.rmtree('/tmp/vh_repo', ignore_errors=True)
-bad=[r for r in rows[1:-2] if 'BUILD' in r[1]] + [r for r in rows[-2:]+rows[:1] if 'BUILD' not in r[1]]
+json.dump(rows, open('/tmp/vh_selftest_rows.json','w'), indent=1)
 print('SELFTEST', 'FAILED' if bad or b.returncode else 'ok', bad)
 sys.exit(1 if bad or b.returncode else 0)
